@@ -112,6 +112,7 @@ def run_case(case, limit=10.0):
     # *equality* through weak references, so letting an equal older code object die while a newer
     # equal one is being converted races the cache (finding F27, a C10 matter, not C01's)
     _KEEP.append(mod)
+    harness.forget_generated(mod)
   return fails, info
 
 
